@@ -1,6 +1,6 @@
 use std::collections::HashMap;
 use std::path::Path;
-use crate::backend::interpreter::DataType;
+use crate::backend::interpreter::{DataType, list_position};
 
 // Contains all built-in function and constant names
 pub struct BuiltInFunctionList {
@@ -138,8 +138,11 @@ impl BuiltInFunctionList {
                 let actual_list = lists.get_mut(index).unwrap();
 
                 if let DataType::Num(push_at_i_f) = push_at {
-                    let push_at_u = push_at_i_f as usize;
-                    actual_list.insert(push_at_u, push_value);
+                    // value can be pushed at every position of list and right after last element
+                    match list_position(push_at_i_f, actual_list.len() + 1) {
+                        Some(push_at_u) => actual_list.insert(push_at_u, push_value),
+                        None => return Err(format!("Index out of range")),
+                    }
                 } else { return Err(format!("Index must evaluate to number type")); }
 
             } else { return Err(format!("Datatype must be array to push value")); }
@@ -166,9 +169,11 @@ impl BuiltInFunctionList {
                 let actual_list = lists.get_mut(index).unwrap();
 
                 if let DataType::Num(pop_at_i_f) = pop_at {
-                    let pop_at_i = pop_at_i_f as usize;
-                    actual_list.remove(pop_at_i);
-                }
+                    match list_position(pop_at_i_f, actual_list.len()) {
+                        Some(pop_at_i) => { actual_list.remove(pop_at_i); },
+                        None => return Err(format!("Index out of range")),
+                    }
+                } else { return Err(format!("Index must evaluate to number type")); }
 
             } else { return Err(format!("Datatype must be array to push value")); }
 
